@@ -253,10 +253,20 @@ func Neighbourhood(s Schema) []Edit {
 				}
 			}
 			if c.Gen != nil {
-				add("col.null.gen-toggle", tn, cn, false, func(s *Schema) { C(s).Null = !C(s).Null })
+				// NOT NULL on a generated column only when its inputs cannot be NULL (the rows of Populate
+				// must fit every model the generators produce)
+				ok := true
+				for _, r := range c.Gen.Refs {
+					ok = ok && !t.Col(r).Null
+				}
+				if ok || !c.Null {
+					add("col.null.gen-toggle", tn, cn, true, func(s *Schema) { C(s).Null = !C(s).Null })
+				}
 			}
-			// type class change (never inside an affinity class: Atlas documents those as equal)
-			if c.Gen == nil {
+			// type class change (never inside an affinity class: Atlas documents those as equal). Not
+			// offered for a column a CHECK mentions: the tagged values of the new class need not satisfy it.
+			hasCheck := slices.ContainsFunc(t.ColUses(cn), func(u string) bool { return strings.HasPrefix(u, "check:") })
+			if c.Gen == nil && !hasCheck {
 				for _, a := range Affinities {
 					if a == Affinity(c.Type) {
 						continue
@@ -274,7 +284,7 @@ func Neighbourhood(s Schema) []Edit {
 						}
 					})
 				}
-			} else {
+			} else if c.Gen != nil {
 				add("col.type", tn, cn+" (generated): -> text", true, func(s *Schema) {
 					if Affinity(C(s).Type) == "TEXT" {
 						C(s).Type = "integer"
@@ -366,7 +376,7 @@ func Neighbourhood(s Schema) []Edit {
 						T(s).PK = append([]string{cn}, T(s).PK...)
 					})
 					if len(t.PK) == 1 {
-						add("pk.switch", tn, t.PK[0]+" -> "+cn, !t.inUnique(cn) || true, func(s *Schema) {
+						add("pk.switch", tn, t.PK[0]+" -> "+cn, true, func(s *Schema) {
 							for i := range T(s).Cols {
 								T(s).Cols[i].AutoInc = false
 							}
